@@ -205,7 +205,8 @@ readArray:
 				return nil, errors.New("corrupt input: expected float, but no more values")
 			}
 			val := math.Float64frombits(a.tape.Tape[a.off])
-			if val > math.MaxInt64 {
+			if val >= math.MaxInt64 {
+				// MaxInt64 is not representable as float64 and is rounded up to 2^63.
 				return nil, errors.New("float value overflows int64")
 			}
 			if val < math.MinInt64 {
@@ -259,7 +260,8 @@ readArray:
 				return nil, errors.New("corrupt input: expected float, but no more values")
 			}
 			val := math.Float64frombits(a.tape.Tape[a.off])
-			if val > math.MaxInt64 {
+			if val >= math.MaxUint64 {
+				// MaxUint64 is not representable as float64 and is rounded up to 2^64.
 				return nil, errors.New("float value overflows uint64")
 			}
 			if val < 0 {
